@@ -135,11 +135,11 @@ func (o stdObj) Add(a, b float64) float64 { return a + b }
 func stdCtx() map[string]stick.Value {
 	return map[string]stick.Value{
 		"a": 3, "b": 4, "c": 5, "z": 0,
-		"s":   "hello",
-		"arr": []stick.Value{1, 0, 3},
-		"one": []stick.Value{1},
-		"h":   map[string]stick.Value{"k": "vk"},
-		"obj": stdObj{"ob"},
+		"s":    "hello",
+		"arr":  []stick.Value{1, 0, 3},
+		"one":  []stick.Value{1},
+		"h":    map[string]stick.Value{"k": "vk"},
+		"obj":  stdObj{"ob"},
 		"nest": []stick.Value{map[string]stick.Value{"k": "n0"}, map[string]stick.Value{"k": "n1"}},
 	}
 }
